@@ -32,6 +32,25 @@ CFG = {
         "Swat4.C16.C16_interleaved",
         "Swat4.C16.address_hypotheses_needed",
         "Swat4.C16.stale_readd_unbacked",
+        "Swat4.C16.backedStrict_backed",
+        "Swat4.C16.expiring_backing_orphaned",
+        "Swat4.C16.report_backed_strict",
+        "Swat4.C16.addServer_backed_strict",
+        "Swat4.C16.probe_backed_strict",
+        "Swat4.C16.probe_complete_backed_strict",
+        "Swat4.C16.refresh_revive_backed_strict",
+        "Swat4.C16.renew_remove_backed_strict",
+        "Swat4.C16.C16_interleaved_strict",
+        "Swat4.C16.mark_preserved_report",
+        "Swat4.C16.mark_preserved_renew",
+        "Swat4.C16.mark_preserved_remove",
+        "Swat4.C16.mark_preserved_discover",
+        "Swat4.C16.mark_preserved_refresh",
+        "Swat4.C16.mark_preserved_revive",
+        "Swat4.C16.mark_preserved_clean",
+        "Swat4.C16.mark_preserved_probeRetry",
+        "Swat4.C16.pop_strict_held",
+        "Swat4.C16.pop_complete_backed",
     ],
     "shards": (1, 16),
     "nontrivial": _nontrivial,
@@ -64,6 +83,13 @@ CFG = {
                 "reportserver's discovery branches return without a repository call for a marked record; addServer_marked_noop — re-submission of a marked server "
                 "changes nothing at any crash/fault point; the shape lemmas discover_order / submission_order / retry_order are definitional and no longer audited). The correspondence run validates the model on the real code: every crash and fault placement at every storage command "
                 "of every mark-setting or mark-consuming use case, Backed oracle (backedB, proved correct: backedB_correct) on the final keyspace. "
+                "BackedStrict (the backing probe must have no expiry: refresh/revival probes expire and PopMany drops them silently — expiring_backing_orphaned): "
+                "every *_backed theorem and C16_interleaved re-proved as *_backed_strict / C16_interleaved_strict (mark-setting paths enqueue with no expiry); "
+                "C16_interleaved now covers the two-step cleaner (Client.cleanServers2); mark_preserved_* — report, keepalive, removal, REST submission, refresh, "
+                "revival, both cleaners and the prober's retry never clear a retry bit of a row that stays, at every crash/fault point (only HandleSuccess/HandleFailure do); "
+                "pop_strict_held — after PopMany from a BackedStrict store every mark is backed by a queued non-expiring probe or by a probe the call returned; "
+                "pop_complete_backed — a fault-free prober batch (PopMany n, then probeserver for every popped probe to completion, any order, any outcomes; mirrors the driver's pop client) "
+                "ends BackedStrict again. "
                 "stale_readd_unbacked: a further race in the model (no crash, no fault; needs a popper and a removal between a reporter's lookup and "
                 "its Add, which stores the stale marked copy) — outside the harness' scenarios, reported. "
                 "Two genuine violations are recorded as known findings with signatures (holder-loss: the destructive pop; consumed-before-mark: enqueue "
